@@ -499,6 +499,12 @@ def run(ctx):
             # `accum` / `input` as parameter names of the generated signature, not as `accum.#field`: not a per-field generator
             gens_real.discard(b.def_)
             continue
+        # every input is merged: the generated statement is the bare insert call, never wrapped in generated control flow (an `if` on the
+        # input's value would let some inputs by - the by-value and the by-reference merge of the same history would then disagree)
+        ctl = sorted({s_ for _, s_ in lits if s_ in ("if", "match", "while", "for", "loop", "return", "break", "continue", "else")})
+        ctx.check(not ctl, "R10.8", fnkey(b) + "#merge-call-unconditional", loc(b),
+                  "the generated merge statement is wrapped in generated control flow (`%s`): an input that fails the generated test is not merged, so the "
+                  "aggregate no longer accounts for every input on that path" % "`, `".join(ctl), "no control-flow keyword is generated around the insert call")
         ctx.check(bool(acc) and bool(inp) and all(i_ == acc[0] for i_ in inp) and all(a == acc[0] for a in acc), "R10.8", fnkey(b) + "#accumulator-and-input-same-field", loc(b),
                   "the generated merge call pairs `accum.<%s>` with `input.<%s>`: a field of the input would be merged into another field of the aggregate" % (
                       sorted(acc[0]) if acc else "?", [sorted(i_) for i_ in inp]),
